@@ -88,6 +88,14 @@ def run_driver_sharded(c, name, casefile, what, extra_args=(), shards=12, end_ma
         except subprocess.TimeoutExpired:
             pr.kill(); out = "[timeout]"
         m, v, s, other = verif.parse_model_output(out)
+        if (pr.returncode != 0 or "cases" not in s) and ("Out_of_memory" in out or "Stack_overflow" in out or pr.returncode < 0):
+            # the driver ran out of memory or was killed while the machine was busy with other checks: once more, alone
+            pr2 = subprocess.run("ulimit -s 262144 2>/dev/null; ulimit -v 8000000 2>/dev/null; exec %s %s %s" % (
+                os.path.join(verif.VERIF, "ocaml", "bin", name), p, " ".join(extra_args)),
+                shell=True, stdout=subprocess.PIPE, stderr=subprocess.STDOUT, text=True, timeout=1500)
+            out = pr2.stdout
+            m, v, s, other = verif.parse_model_output(out)
+            pr = pr2
         if pr.returncode != 0 or "cases" not in s:
             c.broken.append("%s driver failed on %s (%s): %s" % (name, what, os.path.basename(p), out[-600:]))
         mism += m; viol += v; known += [l for l in other if l.startswith("KNOWN")]
